@@ -216,6 +216,9 @@ func runC05Flip(c c05Flip, rec *evid.Rec, rt *rapid.T) (c05Flip, error) {
 	if cerr := stun.Fingerprint.Check(d); cerr != nil {
 		return c, fmt.Errorf("re-decoded fingerprinted message fails the check: %v", cerr)
 	}
+	if cerr := d.Check(stun.Fingerprint); cerr != nil {
+		return c, fmt.Errorf("Message.Check(Fingerprint) fails on a fingerprinted message: %v", cerr)
+	}
 	loc := evid.NewLocal()
 	defer func() {
 		if rec != nil {
